@@ -679,9 +679,10 @@ fn build_and_run(invs: &[Invocation], key: &str) -> Result<Vec<String>, String> 
     let target = work.join(format!("jsonm-target-{}{}", cfg, tree));
     std::fs::create_dir_all(dir.join("src")).map_err(|e| format!("mkdir: {}", e))?;
     let feats: Vec<&str> = ["po", "fr", "ap"].iter().copied().filter(|f| crate::obs::cfg_tag().split('+').any(|x| x == *f)).collect();
-    let manifest = format!("[package]\nname = \"jsonm\"\nversion = \"0.1.0\"\nedition = \"2021\"\n\n[workspace]\n\n[dependencies]\nserde_json = {{ path = {:?} }}\nserde = \"1.0.194\"\n\n\
+    // the package (hence the binary in the shared target dir) is named after the key: `cargo run` must never pick up another key's binary
+    let manifest = format!("[package]\nname = \"jsonm-{}\"\nversion = \"0.1.0\"\nedition = \"2021\"\n\n[workspace]\n\n[dependencies]\nserde_json = {{ path = {:?} }}\nserde = \"1.0.194\"\n\n\
         [features]\nfr = [\"serde_json/float_roundtrip\"]\npo = [\"serde_json/preserve_order\"]\nap = [\"serde_json/arbitrary_precision\"]\nrv = []\nud = []\n\n\
-        [profile.release]\nopt-level = 0\ndebug = false\nincremental = false\ncodegen-units = 16\noverflow-checks = true\n", repo);
+        [profile.release]\nopt-level = 0\ndebug = false\nincremental = false\ncodegen-units = 16\noverflow-checks = true\n", key, repo);
     let mut src = String::from(SCRATCH_MAIN_PRELUDE);
     let per_fn = 25;
     for (fi, chunk) in invs.chunks(per_fn).enumerate() {
@@ -726,6 +727,13 @@ fn forward(sink: &mut Sink, invs: &[Invocation], key: &str) {
     match build_and_run(invs, key) {
         Err(e) => sink.case("jsonmbuild", &[&cfg, &count], &format!("E{}", hexf(e.as_bytes())), "jsonmbuild:failed", true),
         Ok(lines) => {
+            // the program must report every invocation exactly once (guards against a stale or truncated run)
+            let got = lines.iter().filter(|l| l.starts_with("jsonm ")).count();
+            if got != invs.len() {
+                let e = format!("error: the generated program printed {} json! results for {} invocations", got, invs.len());
+                sink.case("jsonmbuild", &[&cfg, &count], &format!("E{}", hexf(e.as_bytes())), "jsonmbuild:count", true);
+                return;
+            }
             sink.case("jsonmbuild", &[&cfg, &count], "OK", "jsonmbuild:ok", true);
             let mut k = 0usize;     // index of the invocation the next `jsonm` line belongs to
             for line in lines {
